@@ -50,6 +50,10 @@ inductive Event
   /-- an exception may leave the mutator here: a call of a helper (`site`) whose body can raise, or a NumPy
       augmented assignment that can fail before it writes -/
   | mayRaise (site : String)
+  /-- the REPRESENTATION of the mask changed although its content did not (a single bool expanded to an array of
+      that bool): no cached answer becomes wrong, but a cached antimask of the old representation is unusable by
+      `_find_corners`, which assumes that antimask and mask have the same representation (finding KF-C18-2) -/
+  | maskRepChanged
   deriving DecidableEq, Repr
 
 abbrev Table := List (String × List (List Event))
@@ -361,14 +365,19 @@ structure Abs where
   dWodR : Bool
   varr : Option Bool
   roTrue : Bool
+  /-- a cached antimask may have the wrong representation (abstract bookkeeping only, see `maskRepChanged`) -/
+  rAnti : Bool
   deriving DecidableEq, Repr
 
 /-- before a mutator: anything may be cached, nothing is stale -/
 def Abs.start (varr : Bool) : Abs :=
-  ⟨true, true, true, true, false, false, false, false, false, false, false, some varr, false⟩
+  ⟨true, true, true, true, false, false, false, false, false, false, false, some varr, false, false⟩
 
-def Abs.clean (a : Abs) : Bool :=
+/-- no cached answer may be wrong -/
+def Abs.cleanD (a : Abs) : Bool :=
   !a.dAnti && !a.dCorn && !a.dSlic && !a.dWodV && !a.dWodM && !a.dWodU && !a.dWodR
+
+def Abs.clean (a : Abs) : Bool := a.cleanD && !a.rAnti
 
 /-- which entries a write invalidates (only if they may be present) -/
 def absEvent (e : Event) (a : Abs) : Abs :=
@@ -389,8 +398,9 @@ def absEvent (e : Event) (a : Abs) : Abs :=
   | .write .derivs _ => a
   | .cacheClear =>
     { a with pAnti := false, pCorn := false, pSlic := false, pWod := false, dAnti := false, dCorn := false,
-             dSlic := false, dWodV := false, dWodM := false, dWodU := false, dWodR := false }
-  | .cacheDel .antimask => { a with pAnti := false, dAnti := false }
+             dSlic := false, dWodV := false, dWodM := false, dWodU := false, dWodR := false, rAnti := false }
+  | .cacheDel .antimask => { a with pAnti := false, dAnti := false, rAnti := false }
+  | .maskRepChanged => { a with rAnti := a.rAnti || a.pAnti }
   | .cacheDel .corners => { a with pCorn := false, dCorn := false }
   | .cacheDel .slicer => { a with pSlic := false, dSlic := false }
   | .cacheDel .wod => { a with pWod := false, dWodV := false, dWodM := false, dWodU := false, dWodR := false }
@@ -420,7 +430,9 @@ def pathOK (es : List Event) : Bool :=
     stale — the mutator may stop there -/
 def exitsOK (exempt : List String) : List Event → Abs → Bool
   | [], _ => true
-  | .mayRaise site :: es, a => (exempt.contains site || a.clean) && exitsOK exempt es a
+  | .mayRaise site :: es, a =>
+    (exempt.contains site || a.cleanD) &&
+    (exempt.contains site || exempt.contains ("rep:" ++ site) || !a.rAnti) && exitsOK exempt es a
   | e :: es, a => exitsOK exempt es (absEvent e a)
 
 def pathExitsOK (exempt : List String) (es : List Event) : Bool :=
@@ -462,14 +474,16 @@ def Abs.le (a b : Abs) : Bool :=
   (!a.pAnti || b.pAnti) && (!a.pCorn || b.pCorn) && (!a.pSlic || b.pSlic) && (!a.pWod || b.pWod) &&
   (!a.dAnti || b.dAnti) && (!a.dCorn || b.dCorn) && (!a.dSlic || b.dSlic) && (!a.dWodV || b.dWodV) &&
   (!a.dWodM || b.dWodM) && (!a.dWodU || b.dWodU) && (!a.dWodR || b.dWodR) &&
-  (match b.varr with | none => true | some x => decide (a.varr = some x)) && (!b.roTrue || a.roTrue)
+  (match b.varr with | none => true | some x => decide (a.varr = some x)) && (!b.roTrue || a.roTrue) &&
+  (!a.rAnti || b.rAnti)
 
 def Abs.join (a b : Abs) : Abs :=
   ⟨a.pAnti || b.pAnti, a.pCorn || b.pCorn, a.pSlic || b.pSlic, a.pWod || b.pWod, a.dAnti || b.dAnti,
    a.dCorn || b.dCorn, a.dSlic || b.dSlic, a.dWodV || b.dWodV, a.dWodM || b.dWodM, a.dWodU || b.dWodU,
-   a.dWodR || b.dWodR, (match decide (a.varr = b.varr) with | true => a.varr | false => none), a.roTrue && b.roTrue⟩
+   a.dWodR || b.dWodR, (match decide (a.varr = b.varr) with | true => a.varr | false => none), a.roTrue && b.roTrue,
+   a.rAnti || b.rAnti⟩
 
-def Abs.top : Abs := ⟨true, true, true, true, true, true, true, true, true, true, true, none, false⟩
+def Abs.top : Abs := ⟨true, true, true, true, true, true, true, true, true, true, true, none, false, true⟩
 
 /-! ### loops: every number of iterations -/
 
